@@ -99,7 +99,16 @@ class Stack(Sequence[T]):
         """Drop the last snapshot."""
         if self.lengths:
             item_count, remained_count = self.lengths.pop()
-            del self.popped[item_count - remained_count :]
+            size = len(self.popped)
+            keep = 0
+            if self.lengths:
+                outer_count, outer_remained = self.lengths[-1]
+                if remained_count < outer_remained:
+                    # Items popped below the outer snapshot's low-water mark
+                    # now belong to the outer snapshot.
+                    keep = outer_remained - remained_count
+                    self.lengths[-1] = (outer_count, remained_count)
+            del self.popped[size - (item_count - remained_count) : size - keep]
 
     def restore(self) -> None:
         """Rewind the stack to the most recent snapshot.
